@@ -218,6 +218,58 @@ def h_history(X, n_updates, names):
     del rec_a, rec_b, rec_c, rejecter
 
 
+def h_nested_listener(X, n_updates):
+    """two cooperating listeners on one update: component A reacts to an option by (successfully) setting ANOTHER
+    option through a nested update, component B (subscribed later) rejects the outer update.  A rejected update must
+    leave EVERY option at its previous value, including the one A touched."""
+    o = make_opts()
+    # (no update ever resets b: i == 41 then implies b is True, so A has nothing to do when a rollback re-notifies the restored state)
+    menu = [{"i": 41}, {"i": 1}, {"i": 41, "seq": ["x"]}, {"seq": ["y"]}, {"i": 3, "s": "u"}, {"s": "t"}]
+    state = {"nested": 0}
+
+    def comp_a(opts, updated):
+        if "i" in updated and opts.i == 41 and not opts.b:
+            state["nested"] += 1
+            opts.update(b=True)  # nested update of an option that is not part of the outer update
+
+    verdict = {}
+
+    def comp_b(opts, updated):
+        if "i" in updated:
+            k = opts.i
+            if k not in verdict:
+                verdict[k] = X.boolean("reject_i")
+            if verdict[k]:
+                X.reach("outer-rejected")
+                raise exceptions.OptionsError("component B rejects this value of i")
+
+    o.subscribe(comp_a, ["i"])
+    o.subscribe(comp_b, ["i"])
+    for step in range(n_updates):
+        kw = X.choose("update", menu)
+        before = snapshot(o)
+        n0 = state["nested"]
+        try:
+            o.update(**kw)
+            outcome = "accepted"
+        except exceptions.OptionsError:
+            outcome = "rejected"
+        after = snapshot(o)
+        ctx = f"update({kw!r}) -> {outcome}; nested update by component A: {state['nested'] > n0}; before={before} after={after}"
+        if outcome == "rejected":
+            if state["nested"] > n0:
+                X.reach("rejected-after-nested-update")
+            X.check(same_state(after, before), "C44/reject/not-restored/nested-update-survives" if state["nested"] > n0 else "C44/reject/not-restored", ctx)
+        else:
+            want = dict(before, **kw)
+            if state["nested"] > n0:
+                want["b"] = True
+                X.reach("nested-accepted")
+            X.check(same_state(after, want), "C44/accept/wrong-state/nested", f"expected {want}: " + ctx)
+    X.reach("end")
+    del comp_a, comp_b
+
+
 def h_typed_single(X):
     """every option x every value of the cross-type menu, alone or after a valid first assignment to another option"""
     o = make_opts()
@@ -325,6 +377,9 @@ def obligations(tier):
              bounds=f"every history of {n_small} updates over options {small}: {len(update_menu(small))} update variants (1-2 assignments, values {[HIST_VALUES[n] for n in small]}, last of each = wrong type) "
                     "x every accept/reject predicate of the rejecting listener over the states shown to it",
              encoded=ENCODED, must_reach=["end", "rejected", "accepted", "wrong-typed"], parallel_depth=2),
+        Symx("nested-listener-update", lambda X: h_nested_listener(X, 3 if quick else 4),
+             bounds=f"every history of {3 if quick else 4} updates from a 6-entry menu with two cooperating listeners: A answers i=41 by a nested update of option b, B (subscribed later) rejects chosen values of i",
+             encoded=ENCODED, must_reach=["end", "outer-rejected", "rejected-after-nested-update", "nested-accepted"]),
         Symx("history-6-options", lambda X: h_history(X, n_full, full),
              bounds=f"every history of {n_full} updates over all 6 options: {len(update_menu(full))} update variants (1-2 assignments; values {HIST_VALUES}) x every accept/reject predicate",
              encoded=ENCODED, must_reach=["end", "rejected", "accepted", "wrong-typed"], parallel_depth=2),
